@@ -2405,6 +2405,8 @@ class sptensor:
         """
         # TODO IndexError for value outside of indices
         # TODO Key error if item not in container
+        # A numpy scalar (np.int64(2), np.float32(2)) is the number it holds
+        value = _python_scalar(value)
         # If empty sptensor and assignment is empty list or empty nparray
         if self.vals.size == 0 and (
             (isinstance(value, np.ndarray) and value.size == 0)
